@@ -1962,12 +1962,17 @@ class mulgrid(object):
         layer_mapping = self.layer_mapping(geo)
         for dest in geo.block_name_list:
             destcol, destlayer = geo.column_name(dest), geo.layer_name(dest)
-            sourcecol, sourcelayer = col_mapping[destcol], layer_mapping[destlayer]
             if destlayer == geo.layerlist[0].name:
+                if self.atmosphere_type == 2: continue # no atmosphere blocks to map to
                 sourcelayer = self.layerlist[0].name # atmosphere layer
                 if self.atmosphere_type == 0:
                     sourcecol = self.atmosphere_column_name
+                elif geo.atmosphere_type == 0:
+                    # single atmosphere block mapped from one per column:
+                    sourcecol = self.columnlist[0].name
+                else: sourcecol = col_mapping[destcol]
             else:
+                sourcecol, sourcelayer = col_mapping[destcol], layer_mapping[destlayer]
                 # if source block is above surface in column, use
                 # first layer below surface instead:
                 if self.column[sourcecol].surface <= self.layer[sourcelayer].bottom:
